@@ -24,11 +24,19 @@ RULE = ("histories = 'reset k' + operation lines; exhaustive tier: a fixed 10-op
         "all live handles of 2-3 documents (self/ancestor insertion, foreign-document nodes, non-child refChild, out-of-range "
         "offsets and counts, invalid names, attributes in use, dead handles are generated deliberately); an evaluation = one "
         "operation executed and structurally dumped on both sides; non-trivial = the operation changed the dump or raised; "
-        "distinct by (operation line, dump digest before it)")
+        "distinct by (operation line, dump digest before it); parsed-prefix tier (implementation + DOM Core judge only): document 0 "
+        "parsed from a 23-node text with an internal entity and entity-reference nodes kept (a read-only subtree with element, "
+        "attribute and attribute-text content), every mutating operation addressed to every node of it, renameNode with and "
+        "without a namespace on every element/attribute alone and in pairs, the same edits on a created and a cloned entity "
+        "reference, and 60 (quick) / 600 (thorough) seeded random sequences of 25 such operations")
 ASSUMPTIONS = ["names and data are ASCII in the generators (isXMLName is modelled for ASCII only)",
                "no DocumentType/Entity/Notation nodes and no namespace-aware (NS) methods are exercised; documents are created "
                "without a doctype, so there are no default attributes and entity references are empty and read-only",
                "user data, release(), Document.cloneNode, normalizeDocument are not modelled",
+               "renameNode with a namespace URI and read-only subtrees (entity-reference expansions obtained from a parsed document) are "
+               "exercised on the implementation and judged by the Python DOM Core judge only (position/children/attributes kept by "
+               "renameNode; every mutation of a read-only target raises and changes nothing); the Lean reference DOM has neither a "
+               "parser nor the namespace-aware rename",
                "the Lean model shows the behaviour after the minimal repairs in fixes/c13_*.diff where the C++ contradicts DOM Core"]
 TRUSTED = ["tools/props/c13.py wf_violations/forbidden_reason (DOM Core structure model and exception clauses as transcribed)"]
 
@@ -194,6 +202,20 @@ def anc_or_self(nodes, a, x):
 def doc_of(nodes, h):
     return h if nodes[h].kind == K_DOC else nodes[h].odoc
 
+def ro_nodes(nodes):
+    """handles that are read-only by DOM Core: every EntityReference and everything inside one (children at any depth,
+    attributes of elements inside it, the content of those attributes)"""
+    ro = set()
+    for h in nodes:
+        x, k = h, 0
+        while x is not None and x in nodes and k <= len(nodes) + 1:
+            if nodes[x].kind == K_EREF:
+                ro.add(h); break
+            up = nodes[x].parent if nodes[x].parent is not None else nodes[x].oelem
+            x = up if isinstance(up, int) else None
+            k += 1
+    return ro
+
 def forbidden_reason(nodes, op):
     """DOM Core: is this operation, in the state described by `nodes`, required to raise a DOMException?
     Returns a category string or None.  Only clauses whose premises are visible in the dump are used; operands that
@@ -223,8 +245,11 @@ def forbidden_reason(nodes, op):
         if anc_or_self(nodes, n, p):
             return "self-or-ancestor-insert-not-rejected"
         pk = nodes[p].kind
-        if pk == K_EREF:
+        ro = ro_nodes(nodes)
+        if pk == K_EREF or p in ro:
             return "readonly-target-modified"
+        if isinstance(nodes[n].parent, int) and nodes[n].parent in ro and pk not in (K_TEXT, K_CDATA, K_COMM, K_PI):
+            return "readonly-target-modified"      # taking a node out of a read-only parent
         if nodes[n].kind == K_DOC or doc_of(nodes, n) != doc_of(nodes, p):
             return "foreign-document-node-accepted"
         if ref is not None and nodes[ref].parent != p:
@@ -245,32 +270,56 @@ def forbidden_reason(nodes, op):
         p, c = H(1), H(2)
         if p is None or c is None: return None
         if nodes[c].parent != p: return "remove-non-child-accepted"
-        if nodes[p].kind == K_EREF: return "readonly-target-modified"
+        if nodes[p].kind == K_EREF or p in ro_nodes(nodes): return "readonly-target-modified"
         return None
     if o in ("ss", "di", "dd", "dr", "sp"):
         t = H(1)
         if t is None: return None
         ok_kinds = (K_TEXT, K_CDATA) if o == "sp" else (K_TEXT, K_CDATA, K_COMM)
         if nodes[t].kind not in ok_kinds: return None
+        if o != "ss" and t in ro_nodes(nodes):
+            return "readonly-target-modified"
         if int(f[2]) > len(nodes[t].value or ""):
             return "offset-out-of-range-accepted"
         return None
+    if o in ("da", "ds"):
+        t = H(1)
+        if t is None: return None
+        if nodes[t].kind not in ((K_TEXT, K_CDATA, K_COMM, K_PI) if o == "ds" else (K_TEXT, K_CDATA, K_COMM)): return None
+        return "readonly-target-modified" if t in ro_nodes(nodes) else None
+    if o == "sv":
+        a = H(1)
+        if a is None or nodes[a].kind != K_ATTR: return None
+        return "readonly-target-modified" if a in ro_nodes(nodes) else None
+    if o == "ra":
+        e = H(1)
+        if e is None or nodes[e].kind != K_ELEM: return None
+        return "readonly-target-modified" if e in ro_nodes(nodes) else None
     if o == "sa":
         e = H(1)
         if e is None or nodes[e].kind != K_ELEM: return None
+        if e in ro_nodes(nodes): return "readonly-target-modified"
         nm = unhx(f[2])
         have = any(a in nodes and unhx(nodes[a].name) == nm for a in nodes[e].attrs)
         return None if have or is_xml_name(nm) else "invalid-name-accepted"
     if o == "sn":
         e, a = H(1), H(2)
         if e is None or a is None or nodes[e].kind != K_ELEM or nodes[a].kind != K_ATTR: return None
+        if e in ro_nodes(nodes): return "readonly-target-modified"
         if doc_of(nodes, a) != doc_of(nodes, e): return "foreign-document-node-accepted"
         if nodes[a].oelem is not None and nodes[a].oelem != e: return "inuse-attribute-accepted"
         return None
     if o == "rn":
         e, a = H(1), H(2)
         if e is None or a is None or nodes[e].kind != K_ELEM or nodes[a].kind != K_ATTR: return None
+        if e in ro_nodes(nodes): return "readonly-target-modified"
         return None if a in nodes[e].attrs else "remove-foreign-attribute-accepted"
+    if o == "rns":
+        d, n = H(1), H(2)
+        if d is None or n is None or nodes[d].kind != K_DOC or len(f) != 5: return None
+        if nodes[n].kind == K_DOC or nodes[n].odoc != d: return "foreign-document-node-accepted"
+        if nodes[n].kind not in (K_ELEM, K_ATTR): return "rename-unsupported-type-accepted"
+        return None if is_xml_name(unhx(f[4])) else "rename-invalid-name-accepted"
     if o == "rnm":
         d, n = H(1), H(2)
         if d is None or n is None or nodes[d].kind != K_DOC: return None
@@ -401,6 +450,46 @@ def surgery_violation(prev, nodes, op, res):
             return "%s changed node %d, which is not involved: %s -> %s" % (op, h, prev[h].raw, x.raw)
     return None
 
+def rename_violation(prev, nodes, op, res):
+    """DOM Core renameNode: the (possibly new) node has the new name and stands exactly where the old one stood, with
+    the same children and attributes; an attribute keeps its owner element, children and value."""
+    f = op.split()
+    if f[0] not in ("rns", "rnm") or not res.startswith("ok"):
+        return None
+    try:
+        n = int(f[2])
+    except (ValueError, IndexError):
+        return None
+    if n not in prev:
+        return None
+    r = res.split()[1] if len(res.split()) > 1 else ""
+    k = int(r[1:]) if r.startswith("n") and r[1:].isdigit() else None
+    if k is None or k not in nodes:
+        return "renameNode returned no live node"
+    want = unhx(f[4] if f[0] == "rns" else f[3])
+    if unhx(nodes[k].name) != want:
+        return "renameNode: the node is called %r, asked for %r" % (unhx(nodes[k].name), want)
+    if nodes[k].kind != prev[n].kind:
+        return "renameNode changed the node type"
+    if prev[n].kind == K_ELEM:
+        par = prev[n].parent
+        if nodes[k].parent != par:
+            return "renameNode: parent was %s, is %s" % (par, nodes[k].parent)
+        if isinstance(par, int) and par in nodes and par in prev and not nodes[par].bad_children:
+            exp = [k if c == n else c for c in prev[par].children]
+            if nodes[par].children != exp:
+                return "renameNode moved the element: children of %d are %s, DOM Core: %s" % (par, nodes[par].children, exp)
+        if nodes[k].children != prev[n].children:
+            return "renameNode: children were %s, are %s" % (prev[n].children, nodes[k].children)
+        if sorted(map(str, nodes[k].attrs)) != sorted(map(str, prev[n].attrs)):
+            return "renameNode: attributes were %s, are %s" % (prev[n].attrs, nodes[k].attrs)
+    elif prev[n].kind == K_ATTR:
+        if nodes[k].oelem != prev[n].oelem:
+            return "renameNode: owner element was %s, is %s" % (prev[n].oelem, nodes[k].oelem)
+        if nodes[k].children != prev[n].children or nodes[k].value != prev[n].value:
+            return "renameNode changed the attribute's content"
+    return None
+
 def judge_history(ops, outs):
     """ops[i] / outs[i] = operation line and the implementation's FULL-mode output line.  Returns the first
     contradiction between the implementation and DOM Core as (index, category, detail), or None."""
@@ -437,6 +526,9 @@ def judge_history(ops, outs):
             sv = surgery_violation(prev_nodes, nodes, op, res)
             if sv:
                 return (i, "tree-surgery-semantics", sv)
+            rv = rename_violation(prev_nodes, nodes, op, res)
+            if rv:
+                return (i, "rename-semantics", rv)
         w = wf_violations(nodes)
         if w:
             return (i, w[0][0], "after %r: %s" % (op, w[0][1]))
@@ -795,7 +887,7 @@ def gen_random(ctx, nhist, length):
     return [by_seed[s] for s in seeds]
 
 # ----------------------------------------------------------------------------- violations
-CREATING = ("ce", "ct", "cc", "cd", "cp", "ca", "cf", "cr", "cl", "im", "sa", "sv", "sp", "reset")
+CREATING = ("ce", "ct", "cc", "cd", "cp", "ca", "cf", "cr", "cl", "im", "sa", "sv", "sp", "reset", "resetp", "rns")
 
 def key_of(cat):
     return "dom:" + cat
@@ -904,6 +996,96 @@ def nontrivial_count(hists, model):
             prev = dig
     return len(seen)
 
+# ----------------------------------------------------------------------------- parsed-prefix tier (judge only)
+NS1, QN1, QN2 = hx("urn:x"), hx("p:b2"), hx("q:z")
+
+def parsed_prefix_histories(ctx):
+    """Histories over `resetp`: document 0 is parsed from
+        <!DOCTYPE r [<!ENTITY e "<x a='1' b='2'>t<y a='3'>u</y></x>">]><r w="0"><p a="free">q</p>&e;<c/><!--z--></r>
+    with entity-reference nodes kept, so it has a read-only subtree with element + attribute content.  Every mutating
+    operation is addressed to every node of it (inside and outside the entity reference), renameNode with and without a
+    namespace is applied to every element/attribute, alone and in pairs; plus seeded random sequences.  These run on the
+    implementation only and are judged by the DOM Core judge (the Lean reference DOM has no parser / namespace-aware
+    rename)."""
+    out, _ = run_impl([["resetp"]], full=True, wd_ms=5000, budget=2)
+    line = (out[0] or [None])[0]
+    if not line or " | " not in line:
+        raise common.InfraError("hx_dom resetp failed: %r" % (line,))
+    nodes = parse_dump(split_out(line)[1])
+    N = max(nodes) + 1
+    T1, E1, A1 = N, N + 1, N + 2
+    base = ["resetp", "ct 0 5a", "ce 0 6e", "ca 0 6b"]
+    doc0 = [h for h in sorted(nodes) if h != 0 and doc_of(nodes, h) == 0]
+    def ops_for(h):
+        n = nodes[h]
+        kid = n.children[0] if n.children else None
+        o = []
+        if n.kind == K_ATTR:
+            o += ["sv %d 39" % h, "ap %d %d" % (h, T1), "rns 0 %d %s %s" % (h, NS1, QN2), "rnm 0 %d 7a" % h, "nz %d" % h]
+            if kid is not None: o += ["rm %d %d" % (h, kid), "rp %d %d %d" % (h, T1, kid)]
+        elif n.kind in (K_TEXT, K_CDATA, K_COMM):
+            o += ["ds %d 39" % h, "da %d 39" % h, "dd %d 0 1" % h, "di %d 0 39" % h, "dr %d 0 1 39" % h]
+            if n.kind != K_COMM: o += ["sp %d 0" % h, "sp %d 1" % h]
+        elif n.kind == K_ELEM:
+            o += ["sa %d 6b 39" % h, "sa %d 61 39" % h, "ra %d 61" % h, "ap %d %d" % (h, T1), "ap %d %d" % (h, E1),
+                  "sn %d %d" % (h, A1), "rns 0 %d %s %s" % (h, NS1, QN1), "rnm 0 %d 7a" % h]
+            if kid is not None: o += ["ib %d %d %d" % (h, T1, kid), "rm %d %d" % (h, kid), "rp %d %d %d" % (h, E1, kid)]
+            if n.attrs: o += ["rn %d %s" % (h, n.attrs[0])]
+        elif n.kind == K_EREF:
+            o += ["ap %d %d" % (h, T1)]
+            if kid is not None: o += ["rm %d %d" % (h, kid), "ib %d %d %d" % (h, E1, kid)]
+        if n.parent is not None and n.kind != K_ATTR:
+            o += ["ap %d %d" % (E1, h), "rm %d %d" % (n.parent, h)]
+        return o
+    hists = []
+    single = []
+    for h in doc0:
+        for o in ops_for(h):
+            single.append(o); hists.append(base + [o])
+    elems = [h for h in doc0 if nodes[h].kind == K_ELEM]
+    attrs = [h for h in doc0 if nodes[h].kind == K_ATTR]
+    ren = ["rns 0 %d %s %s" % (h, NS1, QN1) for h in elems + attrs] + ["rnm 0 %d 7a" % h for h in elems + attrs]
+    for a in ren:
+        for b in ren:
+            hists.append(base + [a, b])
+    # a created / a cloned entity reference: the same edits addressed to the handles of the copy
+    eref = [h for h in doc0 if nodes[h].kind == K_EREF]
+    for mk in (["cr 0 65"], ["cl %d 1" % eref[0]] if eref else []):
+        if not mk: continue
+        for k in range(N + 3, N + 3 + 12):
+            for o in ("sv %d 39", "ds %d 39", "da %d 39", "sp %d 0", "sa %d 6b 39", "ap %d " + str(T1)):
+                hists.append(base + mk + [o % k])
+    # seeded random sequences
+    r = ctx.rng
+    for _ in range(60 if not ctx.thorough() else 600):
+        h = list(base)
+        for _ in range(25):
+            h.append(r.choice(single) if r.below(100) < 80 else r.choice(ren))
+        hists.append(h)
+    return hists
+
+def parsed_prefix_tier(ctx):
+    t0 = time.time()
+    hists = parsed_prefix_histories(ctx)
+    outs, ev = run_impl(hists, full=True, wd_ms=3000, budget=20)
+    found = {}
+    n_eval = 0
+    for h, o in zip(hists, outs):
+        n_eval += len(h)
+        j = judge_history(h, o)
+        if j:
+            found.setdefault(j[1], []).append((h, j))
+    for cat, lst in found.items():
+        if any(v["key"] == key_of(cat) for v in ctx.violations):
+            continue
+        h, j = min(lst, key=lambda t: (t[1][0], len(t[0])))
+        report(ctx, h, j, "parsed-prefix")
+    ctx.stats["parsed_prefix_histories"] = len(hists)
+    ctx.stats["parsed_prefix_findings"] = {k: len(v) for k, v in found.items()}
+    ctx.stats["evaluations"] = ctx.stats.get("evaluations", 0) + n_eval
+    ctx.stats["parsed_prefix_s"] = round(time.time() - t0, 1)
+    common.log("c13 parsed-prefix tier %.1fs (%d histories, findings %s)" % (time.time() - t0, len(hists), ctx.stats["parsed_prefix_findings"]))
+
 def correspondence(ctx):
     th = ctx.thorough()
     t0 = time.time()
@@ -963,6 +1145,7 @@ def correspondence(ctx):
     ctx.stats["distinct_nontrivial"] = nt
     ctx.stats["random_s"] = round(time.time() - t1, 1)
     ctx.samples += [{"history_tail": hists[k][-3:], "model": model[k][-1], "impl": (impl[k] or [None])[-1]} for k in (0, len(hists) - 1)]
+    parsed_prefix_tier(ctx)
     for k, kind, s in all_ev + ev2:
         if kind == "sanitizer" and not any(v["key"].startswith("dom:") for v in ctx.violations):
             ctx.violations.append({"key": "dom:sanitizer", "concrete": True,
